@@ -657,6 +657,7 @@ func main() {
 	_ = flag.String("replay", "", "")
 	mine := flag.Bool("mine-fork", false, "find the nonce of the fork fixture header (one-off)")
 	mineB := flag.Bool("mine-boundary", false, "find the nonce of the activation-boundary fixture header (one-off)")
+	mineP := flag.Bool("mine-position", false, "find the nonces of the new-branch fixture headers (one-off)")
 	flag.Parse()
 	if *mine {
 		mineFork()
@@ -666,6 +667,10 @@ func main() {
 		mineBoundary()
 		return
 	}
+	if *mineP {
+		minePosition()
+		return
+	}
 	start := time.Now()
 	thorough := *tier == "thorough"
 	total := newResult()
@@ -673,7 +678,7 @@ func main() {
 	for _, p := range []struct {
 		name string
 		f    func(bool) *result
-	}{{"target-function", targetPart}, {"target-on-pruned-branch", prunedPart}, {"bits-decoding", bitsPart}, {"real-chain", chainPart}, {"own-branch-target", forkPart}, {"activation-boundary", boundaryPart}, {"demoted-real-chain", demotedPart}} {
+	}{{"target-function", targetPart}, {"target-on-pruned-branch", prunedPart}, {"bits-decoding", bitsPart}, {"real-chain", chainPart}, {"own-branch-target", forkPart}, {"activation-boundary", boundaryPart}, {"demoted-real-chain", demotedPart}, {"position-in-tree", positionPart}, {"small-number-arithmetic", precisionPart}} {
 		t0 := time.Now()
 		r := p.f(thorough)
 		parts[p.name] = r
@@ -696,7 +701,7 @@ func main() {
 		Coverage: map[string]any{
 			"evaluations":         total.evaluations,
 			"distinct_nontrivial": total.nontrivial,
-			"rule":                "complete Cartesian spaces, every element run through the real code: (0) the target function on a branch with 0..149 of its 150 window headers pruned from memory (root and fork branch): the required answer or an error, never a nil target without error; (1) target function: 3^6 timestamp order/tie patterns of the six headers that matter x time-span classes {below 72 blocks, inside, above 288, zero, negative, at the clamps} x bits patterns x branch shapes (root / fork straddling either median window), compared with a reference implementation of the network's algorithm; non-trivial = a tie in a median window, a non-positive span or a fork branch; (2) bits: every exponent byte 0..255 x 11 mantissas x {hash above target, hash meeting the target where one can be found} through ProcessHeader and HandleHeadersMessage; non-trivial = negative / overflow / zero target or exponent outside 4..0x1d; (3) both real mainnet fixture chains with difficulty checking on and 15 single-field mutations of every header in a window; every mutant is non-trivial. All cases distinct by construction",
+			"rule":                "complete Cartesian spaces, every element run through the real code: (0) the target function on a branch with 0..149 of its 150 window headers pruned from memory (root and fork branch): the required answer or an error, never a nil target without error; (1) target function: 3^6 timestamp order/tie patterns of the six headers that matter x time-span classes {below 72 blocks, inside, above 288, zero, negative, at the clamps} x bits patterns x branch shapes (root / fork straddling either median window), compared with a reference implementation of the network's algorithm; non-trivial = a tie in a median window, a non-positive span or a fork branch; (2) bits: every exponent byte 0..255 x 11 mantissas x {hash above target, hash meeting the target where one can be found} through ProcessHeader and HandleHeadersMessage; non-trivial = negative / overflow / zero target or exponent outside 4..0x1d; (8) mined headers claiming the proof-of-work limit offered, with checking on, as the FIRST header of a new branch: off the fork (which requires half the limit: refused as invalid target, unknown afterwards) and off the main branch (which requires the limit: accepted); (9) self-consistent chains near the proof-of-work limit (window work about 2^39) with block spacings 300..900 s grown from 147 to 450 (thorough 900) headers, Branch.Target compared with the reference at every height; (3) both real mainnet fixture chains with difficulty checking on and 15 single-field mutations of every header in a window; every mutant is non-trivial. All cases distinct by construction",
 			"exhaustive":          true,
 			"outcomes":            total.outcomes,
 			"parts":               per,
